@@ -4,6 +4,7 @@ import (
 	"encoding/json"
 	"fmt"
 	"reflect"
+	"regexp"
 	"sort"
 	"strings"
 	"time"
@@ -295,8 +296,10 @@ func checkRemoveStyling(g Graph) (string, string, uint64) {
 	if p := noStyling(reflect.ValueOf(s), "s", map[uintptr]bool{}); p != "" {
 		return "removestyling.left", desc + ": styling left at " + p, 0
 	}
-	return "", "", core.Hash64(before)
+	return "", "", core.Hash64(ptrRe.ReplaceAllString(before, "")) // outcome = content without the addresses
 }
+
+var ptrRe = regexp.MustCompile(`0x[0-9a-f]+ `)
 
 // forests enumerates every parent map over ids that is a forest (no cycles).
 func forests(ids []string) []map[string]string {
